@@ -283,6 +283,9 @@ func runC18(env *lib.Env, rep *lib.Report) {
 	var prog lib.Progress
 	prog.MapJournal(env.Journal)
 	defer prog.Done()
+	// the statements run without a flush timer; what a timer tick in the middle of a statement would turn into a
+	// hang is watched for directly: the shared store lock requested while it is already held
+	recursiveReadLocks := storage.VerifWatchReadLocks()
 	idx := 0
 	for _, state := range states {
 		// read-only statements share one database per (state, shard)
@@ -290,6 +293,7 @@ func runC18(env *lib.Env, rep *lib.Report) {
 		if err != nil {
 			panic(lib.HarnessError{Msg: "C18 setup: " + err.Error()})
 		}
+		recursiveReadLocks = storage.VerifWatchReadLocks() // (the set-up re-installs the hooks)
 		for _, q := range selects {
 			idx++
 			if idx%env.NShards != env.Shard {
@@ -300,6 +304,14 @@ func runC18(env *lib.Env, rep *lib.Report) {
 			e := guard(func() error { return w.sess.ExecQuery(q) })
 			storage.VerifSetFuel(-1)
 			judge(state, q, e)
+			if n := recursiveReadLocks(); n > 0 {
+				fails["recursive-read-lock"]++
+				if fails["recursive-read-lock"] <= 2 {
+					rep.AddFailure(&lib.Failure{Kind: "hang", Detail: fmt.Sprintf("[session state %s] %s asks for the shared store lock %d time(s) while already holding it: it blocks for ever as soon as the flush timer asks for the lock in between", state, clip(q, 200), n), Trace: []string{state, q}})
+				} else {
+					rep.FailCount++
+				}
+			}
 			if !storage.VerifLockFree(w.sess.RelationService) {
 				rep.AddFailure(&lib.Failure{Kind: "hang", Detail: fmt.Sprintf("[session state %s] %s returned (%v) but still holds the store lock: the next timer flush, CREATE TABLE or USE blocks forever", state, clip(q, 200), e), Trace: []string{state, q}})
 				break
@@ -315,11 +327,20 @@ func runC18(env *lib.Env, rep *lib.Report) {
 			if err != nil {
 				panic(lib.HarnessError{Msg: "C18 setup: " + err.Error()})
 			}
+			recursiveReadLocks = storage.VerifWatchReadLocks()
 			prog.Set("session state "+state+" (fresh database)", q)
 			storage.VerifSetFuel(worldFuel)
 			e := guard(func() error { return w.sess.ExecQuery(q) })
 			storage.VerifSetFuel(-1)
 			judge(state, q, e)
+			if n := recursiveReadLocks(); n > 0 {
+				fails["recursive-read-lock"]++
+				if fails["recursive-read-lock"] <= 2 {
+					rep.AddFailure(&lib.Failure{Kind: "hang", Detail: fmt.Sprintf("[session state %s] %s asks for the shared store lock %d time(s) while already holding it: it blocks for ever as soon as the flush timer asks for the lock in between", state, clip(q, 200), n), Trace: []string{state, q}})
+				} else {
+					rep.FailCount++
+				}
+			}
 			if !storage.VerifLockFree(w.sess.RelationService) {
 				rep.AddFailure(&lib.Failure{Kind: "hang", Detail: fmt.Sprintf("[session state %s] %s returned (%v) but still holds the store lock: the next timer flush, CREATE TABLE or USE blocks forever", state, clip(q, 200), e), Trace: []string{state, q}})
 			}
